@@ -625,6 +625,7 @@ func runC15(c *Cfg) {
 	r := c.Rep
 	runSpecial(c, "C15", "same-name-slice-types")
 	runSpecial(c, "C15", "or-default-on-absent-keys")
+	runSpecial(c, "C15", "near-integer-floats")
 	runC15Stateful(c)
 	// results of consecutive slice conversions are independent of each other
 	typed := []any{[]int{1, 2, 3}, []string{"a", "b"}, []float64{1.5}, []map[string]any{{"a": 1}}, []int{7}, zoo.NamedSlice{4, 5}, []bool{true, false}, make([]int, 32), make([]string, 33), []any{1, "x"}}
